@@ -487,6 +487,25 @@ def _refills_missing(program, entry) -> bool:
     return False
 
 
+def sql_floor_division_rule(program, res, rule="C05-S1"):
+    """`//` is a derived expression: the floor of a division.  The division it builds on has to be the float division (`%/%`, float_divide): SQL's `/`
+    between two integer columns has already truncated towards zero before the FLOOR sees it"""
+    f = program.module("sql_model").functions.get("_db_int_divide_expr")
+    if f is None:
+        raise AnalysisError("anchor vanished: sql_model._db_int_divide_expr")
+    res.analysed(f)
+    plain = [b for b in ast.walk(f.node) if isinstance(b, ast.BinOp) and isinstance(b.op, ast.Div) and "expression.args" in unparse(b)]
+    floaty = [c for c in ast.walk(f.node) if isinstance(c, ast.Call) and isinstance(c.func, ast.Attribute) and c.func.attr in ("float_divide",)]
+    if plain:
+        res.fail_at(rule, f, "floor-division-of-truncated-quotient",
+                    f"`{unparse(plain[0])}` builds `//` on the SQL operator `/`: for integer operands the quotient is truncated towards zero before FLOOR — "
+                    f"(7, -7, -1) // (2, 2, 3) gives 3, -3, 0 on SQLite (and in the PostgreSQL text) and 3, -4, -1 on Pandas and Polars", plain[0])
+    elif floaty:
+        res.ok(rule, "`//` is the floor of the float division")
+    else:
+        raise AnalysisError("_db_int_divide_expr: neither `/` nor float_divide found")
+
+
 def sql_division_rule(program, res, dialect, rule):
     """`/` is true division in Python, Pandas and Polars; SQL's `/` between two integer operands is integer division.  A dialect agrees with
     the data-frame executors only if `/` goes through a formatter that makes an operand floating (as the library's `%/%` does)."""
@@ -495,7 +514,7 @@ def sql_division_rule(program, res, dialect, rule):
         res.ok(rule, f"{dialect.name}: `/` is emitted by a formatter")
     else:
         res.fail(rule, f"{dialect.module.name.split('.')[-1]}:{dialect.name}", "sql-division-of-integer-operands",
-                 f"{dialect.name}: `i / j` has no formatter and is emitted as the SQL operator `/`: on integer columns SQL truncates (7 / 2 = 3, -7 // 2 = FLOOR(-7 / 2) = -3) "
+                 f"{dialect.name}: `i / j` has no formatter and is emitted as the SQL operator `/`: on integer columns SQL truncates (7 / 2 = 3, -7 / 2 = -3) "
                  f"while Pandas and Polars return 3.5 and -4; the library's `%/%` operator exists for this reason (it multiplies by 1.0)",
                  f"data_algebra/{dialect.module.name.split('.')[-1]}.py", 0)
 
@@ -615,6 +634,73 @@ def _s7_coalesce_missing_only(program, res):
         res.ok("C05-S7", "Pandas coalesce fills missing cells only (no test that also flags infinities)")
 
 
+def masked_condition_rule(program, res, rule="C05-S8"):
+    """numpy.where(cond, a, b) asks cond for the truth value of every entry; a pandas nullable column refuses that for its missing entries.
+    The condition handed over by where / if_else therefore goes through a step that fills the missing entries first"""
+    mod = program.module("pandas_base")
+    n = 0
+    for f in program.all_functions():
+        if f.module is not mod or f.node.name not in ("_where_expr", "_if_else_expr"):
+            continue
+        res.analysed(f)
+        for c in ast.walk(f.node):
+            if isinstance(c, ast.Call) and dotted_name(c.func) == "numpy.where" and c.args:
+                n += 1
+                a0 = c.args[0]
+                normalised = False
+                if isinstance(a0, ast.Call):
+                    callee = dotted_name(a0.func) or ""
+                    h = mod.functions.get(callee.split(".")[-1]) if hasattr(mod, "functions") else None
+                    hnode = getattr(h, "node", None)
+                    if hnode is not None and any(isinstance(x, ast.Call) and isinstance(x.func, ast.Attribute) and x.func.attr in ("fillna", "to_numpy") for x in ast.walk(hnode)):
+                        normalised = True
+                    if isinstance(a0.func, ast.Attribute) and a0.func.attr in ("fillna", "to_numpy"):
+                        normalised = True
+                if normalised:
+                    res.ok(rule, f"{f.node.name}: the condition of numpy.where has its missing entries filled first")
+                else:
+                    res.fail_at(rule, f, f"masked-condition-asked-for-truth:{f.node.name}",
+                                f"`{unparse(c)[:60]}` hands the condition over as it is: for a pandas nullable column ((n > 2) with an Int64 n, a `boolean` column) numpy.where "
+                                f"raises TypeError 'boolean value of NA is ambiguous'; SQLite and Polars return the documented values", c)
+    if n < 2:
+        raise AnalysisError("pandas_base: numpy.where in _where_expr and _if_else_expr not found")
+
+
+def _s9_total_user_functions(program, res, rule="C05-S9"):
+    """Python's math functions raise on arguments outside their domain or range (log(0), sqrt(-1), exp(800), pow(0.0, -1)); numpy — the catalogued
+    Pandas meaning — returns -inf, nan, inf.  A SQLite user function that raises fails the whole query, so the wrappers through which the
+    math functions are registered have to catch the three exception types"""
+    mod = program.module("SQLite")
+    pc = program.method("SQLite", "SQLiteModel", "prepare_connection", inherited=False)
+    wrappers = {}
+    for c in ast.walk(pc.node):
+        if isinstance(c, ast.Call) and dotted_name(c.func) == "functools.partial" and len(c.args) >= 2 and isinstance(c.args[0], ast.Name) \
+                and (dotted_name(c.args[1]) or "").startswith("math."):
+            wrappers.setdefault(c.args[0].id, set()).add(dotted_name(c.args[1]))
+    if not wrappers:
+        res.ok(rule, "no Python math function is registered as a SQLite function")
+        return
+    for wname, fns in sorted(wrappers.items()):
+        w = next((f for f in mod.tree.body if isinstance(f, ast.FunctionDef) and f.name == wname), None)
+        if w is None:
+            raise AnalysisError(f"SQLite: wrapper {wname} not found")
+        caught = set()
+        for t in ast.walk(w):
+            if isinstance(t, ast.Try) and any(isinstance(c, ast.Call) and isinstance(c.func, ast.Name) and c.func.id == w.args.args[0].arg for b in t.body for c in ast.walk(b)):
+                for h in t.handlers:
+                    if h.type is None:
+                        caught |= {"ValueError", "OverflowError", "ZeroDivisionError"}
+                    else:
+                        caught |= {x.id for x in ast.walk(h.type) if isinstance(x, ast.Name)}
+        need = {"ValueError", "OverflowError"}
+        if need <= caught or "Exception" in caught or "ArithmeticError" in caught and "ValueError" in caught:
+            res.ok(rule, f"SQLite: {wname} ({len(fns)} math functions) turns a domain / range error into a value")
+        else:
+            res.fail(rule, f"SQLite:{wname}", f"user-function-raises:{wname}",
+                     f"{wname} calls the registered math function ({sorted(fns)[:5]}…) without catching {sorted(need - caught)}: x.log() over a column holding 0 fails the whole SQLite "
+                     f"query ('user-defined function raised exception'); Pandas and Polars return -inf", "data_algebra/SQLite.py", w.lineno)
+
+
 def _s8_column_operand_kinds(program, res, rule="C05-S8"):
     """the Pandas expression implementations return a Series or — numpy.where, numpy.char.add and friends — a numpy array.  A helper that tells a
     column from a scalar by `isinstance(x, pd.Series)` alone takes such an array for a scalar"""
@@ -672,8 +758,12 @@ def _s8_column_operand_kinds(program, res, rule="C05-S8"):
 
 
 def run(program, res, tier):
+    res.rule("C05-S9", "SQLite: registered Python math functions are total (numpy's -inf / nan / inf instead of an exception)")
+    _s9_total_user_functions(program, res)
+    sql_floor_division_rule(program, res)
     res.rule("C05-S8", "Pandas: helpers that tell columns from scalars know every column type the implementations return")
     _s8_column_operand_kinds(program, res)
+    masked_condition_rule(program, res)
     res.rule("C05-S1", "every catalogued (method, backend) marked 'y' resolves to an implementation of the right meaning")
     res.rule("C05-S2", "three-valued truth tables of the SQL templates equal the documented null contracts")
     res.rule("C05-S3", "documented null contracts match the primitives each back end binds the method to")
